@@ -246,6 +246,10 @@ ADDENDA4 = {'C09': 'The per-run memo of component locations holds the answer of 
 for _k, _v in ADDENDA4.items():
     CHECKS[_k]["text"] += " " + _v
 
+ADDENDA5 = {'C02': 'A filter helper whose result the caller rewrites in place returns a fresh object and keeps no second reference (no corruptible memo).', 'C05': 'classifyGlyphs closes the neutral set over GSUB before taking it out of each class closure.', 'C18': 'classifyGlyphs closes the neutral set over GSUB before taking it out of each class closure.', 'C10': 'No function writes to module-level state.', 'C08': 'No function writes to module-level state.', 'C14': 'A copied glyph set owns a copy of the layer lib.'}
+for _k, _v in ADDENDA5.items():
+    CHECKS[_k]["text"] += " " + _v
+
 _TODO = "check not built yet in this session (static rules designed in DESIGN.md §5; will be claimed when the rule set is armed)"
 NOT_APPLICABLE = {}
 for _p in ["C01", "C02", "C04", "C05", "C06", "C07", "C08", "C09", "C10", "C11", "C12", "C13", "C14", "C15", "C16", "C17", "C18", "C19", "C20"]:
